@@ -128,8 +128,27 @@ CasesTyped(blk) ==
             IN { CaseT(j, 0, t0, LcgTape(Mix(x, 1), 64), ann0), CaseT(j, 1, t1, LcgTape(Mix(x, 2), 64), ann1) }
           : j \in { jj \in 1..NBig : jj % NBlocks = blk - 1 } }
 
+(* Long files: NBig files of 33 .. 160 top-level entries (objects of one or two entries, strings, lists; names wrap
+   around the pool, so objects of the same name merge and later strings override), each in its own layout or in one style throughout. *)
+WideShape(n, x) ==
+    [i \in 1..n |->
+        LET kind == (x + i * 7) % 5
+        IN IF kind \in {0, 1, 2}
+           THEN [n |-> i % 8, k |-> "o",
+                 ents |-> IF kind = 0 THEN << [n |-> (i \div 8) % 8, k |-> "s"] >>
+                          ELSE << [n |-> (i \div 8) % 8, k |-> "s"], [n |-> (i \div 3) % 8, k |-> IF kind = 1 THEN "s" ELSE "p"] >>]
+           ELSE IF kind = 3 THEN [n |-> (i + 3) % 8, k |-> "s"]
+           ELSE [n |-> (i + 5) % 8, k |-> "l", c |-> i % 4]]
+CasesWide(blk) ==
+    { LET x == Mix(Mix(Seed, 15485863), j)
+          n == <<33, 40, 64, 100, 160>>[(j % 5) + 1]
+          \* every second file is written in one style throughout (the same choice at every decision point)
+          tape == IF j % 2 = 0 THEN LcgTape(Mix(x, 1), 64) ELSE [i \in 1..4 |-> (j \div 2) % 24]
+      IN Case(Fill(WideShape(n, x), x % 8, (x \div 8) % 16), tape)
+        : j \in { jj \in 1..NBig : jj % NBlocks = blk - 1 } }
+
 Cases(blk) == CASE Mode = "cyc" -> CasesCyc(blk) [] Mode = "rnd" -> CasesRnd(blk) [] Mode = "big" -> CasesBig(blk)
-                [] Mode = "typed" -> CasesTyped(blk)
+                [] Mode = "typed" -> CasesTyped(blk) [] Mode = "wide" -> CasesWide(blk)
 
 Marker(ph, blk) == [ph |-> ph, blk |-> blk, id |-> 0, k |-> 0, t |-> <<>>, l |-> <<>>, b |-> <<>>, r |-> <<>>, typed |-> <<>>]
 Init == c = Marker(0, 0)
